@@ -1,9 +1,90 @@
 import ALV.Common.Json
+import ALV.Model.C12
+import ALV.Spec.C12
 namespace ALV.Driver.C12
-open ALV ALV.J
+open ALV ALV.J ALV.C12
 
-/-- stub: the C12 slice is not built yet -/
-def handle (entry : String) (_j : Json) : Except String Json :=
-  throw s!"C12: unknown entry {entry}"
+/-- a Gaussian rational travels as `[re, im]` (or a bare rational) -/
+def getG (j : Json) : Except String GRat :=
+  match j with
+  | Json.arr [r, i] => do pure ⟨← getRat r, ← getRat i⟩
+  | _ => do pure ⟨← getRat j, 0⟩
+
+def gToJson (g : GRat) : Json := Json.arr [ratToJson g.re, ratToJson g.im]
+
+def respToJson : Resp GRat → Json
+  | .valueError => Json.mkObj [("err", Json.str "ValueError")]
+  | .typeError => Json.mkObj [("err", Json.str "TypeError")]
+  | .nan => Json.str "nan"
+  | .val v => gToJson v
+
+def getFilt (j : Json) : Except String (List GRat × List GRat) := do
+  pure (← getList getG (← field j "b"), ← getList getG (← field j "a"))
+
+def optG : Option GRat → Json
+  | none => Json.str "nan"
+  | some v => gToJson v
+
+def handle (entry : String) (j : Json) : Except String Json := do
+  match entry with
+  | "freq" =>
+    -- one filter, a container of points w = exp(-j*freq)
+    let (b, a) ← getFilt j
+    let ws ← getList getG (← field j "ws")
+    pure <| Json.mkObj [
+      ("model", arr respToJson (elementwise (respOfFilter b a) ws)),
+      ("spec", arr respToJson (elementwise (respSpec b a) ws)),
+      ("den", arr gToJson (ws.map (evalDirect a))),
+      ("horner", Json.bool (match mkFilter b a with
+          | some f => f.num.all (fun t => decide (0 ≤ t.1))
+          | none => false))]
+  | "bank" =>
+    let kind ← getStr (← field j "kind")
+    let bank ← getList getFilt (← field j "bank")
+    let ws ← getList getG (← field j "ws")
+    let (m, s) := if kind = "cascade"
+      then (elementwise (cascadeResp bank) ws, elementwise (cascadeSpec bank) ws)
+      else (elementwise (parallelResp bank) ws, elementwise (parallelSpec bank) ws)
+    pure <| Json.mkObj [
+      ("model", arr respToJson m), ("spec", arr respToJson s),
+      ("dens", arr (fun w => arr (fun (f : List GRat × List GRat) => gToJson (evalDirect f.2 w)) bank) ws)]
+  | "dft" =>
+    let blk ← getList getG (← field j "blk")
+    let ws ← getList getG (← field j "ws")
+    let norm ← getBool (← field j "normalize")
+    let m := dft (fun (w : GRat) n => pw w n) blk ws norm
+    let s : Option (List GRat) :=
+      if norm ∧ blk.length = 0 ∧ ws ≠ [] then none else some (ws.map fun w => dftSpec w blk norm)
+    let enc : Option (List GRat) → Json
+      | none => Json.mkObj [("err", Json.str "ZeroDivisionError")]
+      | some l => arr gToJson l
+    pure <| Json.mkObj [("model", enc m), ("spec", enc s)]
+  | "fir" =>
+    -- time domain: FIR filter b on the input xs; optional steady-state check data
+    let b ← getList getG (← field j "b")
+    let xs ← getList getG (← field j "xs")
+    let m := firRun b xs
+    let s := firSpec b xs
+    -- impulse response / DFT link: dft of the model output at the points ws (unnormalised)
+    let ws ← getList getG (fieldD j "ws" (Json.arr []))
+    let dm := ws.map fun w => dftSum (fun n => pw w n) m
+    let hs := ws.map fun w => respSpec b [1] w
+    pure <| Json.mkObj [
+      ("model", arr gToJson m), ("spec", arr gToJson s),
+      ("dft_of_model", arr gToJson dm), ("H", arr respToJson hs)]
+  | "expo" =>
+    -- complex exponential x_n = u^n (u = e^{jω} = 1/w) through the FIR filter b, n < len
+    let b ← getList getG (← field j "b")
+    let u ← getG (← field j "u")
+    let n ← getNat (← field j "len")
+    let xs := (List.range n).map fun k => pw u k
+    let m := firRun b xs
+    let w : GRat := 1 / u
+    let h := evalDirect b w
+    let s := xs.map fun x => h * x        -- valid from index len(b)-1 on
+    pure <| Json.mkObj [
+      ("xs", arr gToJson xs), ("model", arr gToJson m), ("steady", arr gToJson s),
+      ("H", gToJson h), ("order", natToJson (b.length - 1))]
+  | _ => throw s!"C12: unknown entry {entry}"
 
 end ALV.Driver.C12
